@@ -21,7 +21,7 @@ CHECKS = {
          "small-scope exhaustive on texts (<=3 quick, <=4 thorough), sampled beyond; floating-point calc and full Unicode case mapping out of scope",
          "TLA+ spec + TLC exhaustive; spec->impl replay; impl->spec trace validation"),
  "C19": ("DESIGN.md section 6 C19",
-         "ScriptCmd.tla: the wrapper protocol of script-implemented commands as a state machine (publish, body steps incl. nested script commands and errors at any point, cleanup) model-checked for NoTrace, plus the TLA+-defined enumeration of invocation cases (20 commands x 56 argument shapes by kind x 5 calling contexts); every case is run on the real SDK in a fresh directory comparing the variable map and the handle-table size before and after; random sessions on a persistent context are validated by TLC against the R-level postcondition.",
+         "ScriptCmd.tla: the wrapper protocol of script-implemented commands as a state machine (publish, body steps incl. nested script commands and errors at any point, cleanup) model-checked for NoTrace, plus the TLA+-defined enumeration of invocation cases (20 commands x 56 argument shapes by kind x 5 calling contexts); every case is run on the real SDK in a fresh directory comparing the variable map and the handle-table size before and after; random sessions on a persistent context are validated by TLC against the R-level postcondition. Leg D: the script-command loop (eval_instructions) of every script-implemented command invoked by the repository's own test scripts validated by RunLoop_Trace, and every such invocation leaves the caller's variables unchanged.",
          "exhaustive over the case enumeration; sampled sessions; wget excluded; join_path's known hang skipped",
          "TLA+ spec + TLC exhaustive; spec->impl replay; impl->spec trace validation"),
  "C12": ("DESIGN.md section 6 C12",
@@ -53,7 +53,7 @@ CHECKS = {
          "complete state graph over a small universe; sampled beyond; outputs documented as None compared by success class",
          "TLA+ spec + TLC exhaustive state graph; per-transition spec->impl replay; impl->spec trace validation"),
  "C03": ("DESIGN.md section 6 C03",
-         "Runner.tla is the property's abstract machine (poll, fetch, per-result transitions, on_error dispatch, later-duplicate-label-wins table). TLC enumerates every program of <=2 (thorough <=3) lines over all result kinds x 4 on_error configurations x text/file and prints each terminated behaviour; all are replayed through run_script / run_script_file with scripted commands and compared (invocation sequence with bound arguments, final variables, outcome, error line and source); random 40-line programs executed by the real runner are validated step by step by the trace spec C03_Trace (silent steps for unlogged lines).",
+         "Runner.tla is the property's abstract machine (poll, fetch, per-result transitions, on_error dispatch, later-duplicate-label-wins table). TLC enumerates every program of <=2 (thorough <=3) lines over all result kinds x 4 on_error configurations x text/file and prints each terminated behaviour; all are replayed through run_script / run_script_file with scripted commands and compared (invocation sequence with bound arguments, final variables, outcome, error line and source); random 40-line programs executed by the real runner are validated step by step by the trace spec C03_Trace (silent steps for unlogged lines). Leg D: RunLoop.tla / RunLoop_Trace.tla - the runner loop validated event by event on proxy-logged runs of the repository's own test scripts (line progression, store rule, on_error dispatch).",
          "small-scope exhaustive on programs, sampled beyond; scripted harness commands stand for arbitrary commands",
          "TLA+ spec + TLC exhaustive behaviours; spec->impl replay; impl->spec trace validation"),
  "C13": ("DESIGN.md section 6 C13",
@@ -73,7 +73,7 @@ CHECKS = {
          "small-scope exhaustive on values, sampled on Unicode; known finding classes are derived by the model",
          "TLA+ spec + TLC exhaustive; spec->impl replay; impl->spec trace validation"),
  "C02": ("DESIGN.md section 6 C02",
-         "Binding (template semantics: verbatim, single pass, one argument per template, spread = words) model-checked against Expansion (transcription of expansion.rs + bind_command_arguments) for every value over 12 character classes; every emitted case bound by the real run_instruction and parse_text+run_script; random Unicode templates recorded from the real runner validated by TLC.",
+         "Binding (template semantics: verbatim, single pass, one argument per template, spread = words) model-checked against Expansion (transcription of expansion.rs + bind_command_arguments) for every value over 12 character classes; every emitted case bound by the real run_instruction and parse_text+run_script; random Unicode templates recorded from the real runner validated by TLC. Leg D: the bindings of every direct invocation in proxy-logged runs of the repository's own test scripts validated against Binding!Sem (RunLoop_Trace).",
          "small-scope exhaustive on values, sampled on Unicode; templates inside the stated domain",
          "TLA+ spec + TLC exhaustive; spec->impl replay; impl->spec trace validation"),
  "C01": ("DESIGN.md section 6 C01",
